@@ -54,3 +54,12 @@ Theorem C16_sliding_var_offset_outside_known_class : forall N c xs, (0 < N)%nat 
   (N = 1%nat -> Forall2 Qeq a b) /\ Forall2 Qeq (firstn 2 a) (firstn 2 b).
 Proof. exact mvw_var_offset_partial. Qed.
 Print Assumptions C16_sliding_var_offset_outside_known_class.
+
+(* ---- the generic (float / integer) model of the bit-exact stream, instantiated at the rationals, is the model above ---- *)
+From Signalo Require Base.Arith Model.Generic Proofs.Generic.
+Theorem C16_generic_window : forall N s x, (let '(s', y) := Signalo.Model.Generic.g_mvw_step Signalo.Base.Arith.Qar N s x in (Signalo.Proofs.Generic.mvw_of s', y)) = Signalo.Model.MeanVar.mvw_step N (Signalo.Proofs.Generic.mvw_of s) x.
+Proof. exact Signalo.Proofs.Generic.gq_mvw. Qed.
+Print Assumptions C16_generic_window.
+Theorem C16_generic_exp : forall w s x, Signalo.Model.Generic.g_mve_step Signalo.Base.Arith.Qar w s x = Signalo.Model.MeanVar.mve_step w s x.
+Proof. exact Signalo.Proofs.Generic.gq_mve. Qed.
+Print Assumptions C16_generic_exp.
